@@ -227,7 +227,8 @@ func (c *Connect) unpackPayload(bufr *bytes.Buffer) error {
 		}
 	}
 	if c.PasswordFlag {
-		c.Password, err = readUTF8String(true, bufr)
+		// the password is Binary Data, not a UTF-8 Encoded String
+		c.Password, err = readUTF8String(false, bufr)
 		if err != nil {
 			return err
 		}
